@@ -145,14 +145,14 @@ def run_C03(run):
     run.assumptions = ["SemR: every traced operation denotes its exact real function (rcp = 1/x, rsqrt = 1/sqrt x, fma = a*b+c, min/max = the smaller/larger real, CopySign takes the sign of a real): two kernels with the same meaning differ only by rounding; identical trees (decided by computation) execute the same IEEE operations on the same operands and are bit-identical",
                        "simd_shim.hpp models each x86 intrinsic GLM uses lane by lane (mask-and/andnot/or as a branch on the comparison; sign-bit masks as FAbs / CopySign / Neg; dp_ps and hadd_ps in the order the Intel SDM gives); validated on every run against the same entries built with the compiler's intrinsics on generated inputs (bit-exact, %d trials)" % run.cov.get("translator_validation_trials", 0),
                        "NaN operands and the sign of zero are outside the theorems (minps/maxps and std::fmin differ there) and outside the table comparison (GLSL leaves them undefined); the table treats -0 and +0 as the same value",
-                       "integer and double-precision SIMD specialisations (ivec4, uvec4, dvec4, dquat) are not traced: compared by the operation table only",
+                       "integer SIMD specialisations (ivec4, uvec4) are not traced (the element type int cannot be renamed): compared by the operation table only",
                        "round4 is a partial theorem (off the ties); floor4/ceil4/fract4/mod4 at the SSE2..SSSE3 levels use that binary32 values >= 2^23 are integers (hypothesis D_big) and |x/y| < 2^23 (D_mod); all 2^32 binary32 values are run through round/floor/ceil/fract on hardware in this check",
                        "the 8 * 2^-24 * scale bound on multi-term expressions and the n * 2^-11 bound on lowp approximations are checked on hardware by the table, not proved"]
     run.samples.append("operation table: %d rows x %d builds (pure, pure+WXYZ, %s), seeds %s; exact rows bit-compared (as IEEE values), multi-term rows within 8*2^-24*scale, lowp rows within n*2^-11" % (rows, len(builds), " ".join(l[0] for l in C03_LEVELS), seeds))
     return run.finish(TRUST_COMMON + ["simd_shim.hpp (~200 lines): lane-wise model of the x86 intrinsics, validated against the compiler's intrinsics on every run (testing, not proof)",
                                       "gen_C03_proofs.py: asks Coq which entries are not identical trees and writes one lemma statement per such entry with a fixed tactic (cannot make a false lemma pass)",
                                       "oracle_C03.cpp + cmp_C03.py (operation table, pure against every instruction-set level) and oracle_C03_round.cpp (all 2^32 binary32 values): violation search and the only check of the rounding bounds"],
-                      "theorems: 91 traced operations x 10 SIMD configurations, all real inputs of each entry's domain; oracle: operation table on a generated corpus under 12 builds, rounding functions on every binary32 value",
+                      "theorems: 125 traced operations (float and double) x 10 SIMD configurations, all real inputs of each entry's domain; oracle: operation table on a generated corpus under 12 builds, rounding functions on every binary32 value",
                       CHECKER)
 
 
